@@ -297,6 +297,9 @@ def _reserve_child_class_names(generators: List[tuple]):
     for gen, nested_generators in generators:
         for ptr in gen.model.child_pointers:
             gen.reserve_field_name(ptr.type.name)
+        for nested_gen, _ in nested_generators:
+            # (a class can also be nested here without being a child: one that several children share)
+            gen.reserve_field_name(nested_gen.model.name)
         # Colliding keys get their suffixes in the order of the keys, not in the order the samples brought them
         for key in sorted(gen.model.type):
             gen.convert_field_name(key)
